@@ -1,0 +1,10 @@
+//go:build !verif
+
+package file
+
+import "os"
+
+// verifPoint marks a crash point of the file store (before/after a write, sync, remove or open).
+// In the default build it is an empty function; the verification build (-tags verif) reports the
+// point to a settable callback, see verif_hook_on.go.
+func verifPoint(_ string, _ *os.File, _ string) {}
